@@ -582,6 +582,10 @@ func (a *AddrManager) nextAddresses(dbTransaction db.DBTransaction, checkfunc fu
 }
 
 func (a *AddrManager) updateManagedAddress(dbTransaction db.DBTransaction, managedAddresses []*ManagedAddress) error {
+	// the readers of addrs/index (Address, ManagedAddresses, ListAddresses, ...) hold
+	// a.mu only, not the keystore manager's lock the caller holds
+	a.mu.Lock()
+	defer a.mu.Unlock()
 	for _, managedAddress := range managedAddresses {
 		a.addrs[managedAddress.address] = managedAddress
 		a.index[managedAddress.derivationPath.Index] = managedAddress.address
